@@ -213,6 +213,7 @@ pub fn run_c06(out: &mut Out, tier: &str, seed: u64) {
             }
         }
     }
+    crate::objapi::long_inputs(out, &mut rng, true);
 }
 
 /// honest keys whose public-key encoding has a rare byte pattern (top byte 0x7f/0x00/0xff, low byte
